@@ -94,6 +94,19 @@ def generate(rng, tier, ctx):
     bigr = b'\x01' + rng.bytes(70); bigs = b'\x01' + rng.bytes(70)
     add(der_sig(0, 0, rb=bigr, sb=bigs), 'long-form-legit')
     add(der_sig(0, 0, rb=b'\x01' + rng.bytes(130), sb=bigs), 'long-form-int-legit')
+    # length octets that only fit after wrapping a 64-bit accumulator: 9..126 length octets whose low 8 bytes are the
+    # true length (>= 128 so that the minimality check cannot save a sloppy reader)
+    inner = b'\x02' + der_len(len(bigr)) + bigr + b'\x02' + der_len(len(bigs)) + bigs
+    Li = len(inner)
+    for nlen in (9, 10, 16, 126):
+        for lead in (1, 0x80, 0xff):
+            wrapped = bytes([0x80 | nlen]) + bytes([lead]) + b'\0' * (nlen - 9) + Li.to_bytes(8, 'big')
+            add(b'\x30' + wrapped + inner, 'seqlen-wrap%d' % nlen)
+    bigint = b'\x01' + rng.bytes(130)
+    for nlen in (9, 12, 126):
+        wl = bytes([0x80 | nlen]) + b'\x01' + b'\0' * (nlen - 9) + len(bigint).to_bytes(8, 'big')
+        body2 = b'\x02' + wl + bigint + b'\x02' + der_len(len(bigs)) + bigs
+        add(b'\x30' + der_len(len(body2)) + body2, 'intlen-wrap%d' % nlen)
     # trailing inside the sequence
     add(b'\x30' + der_len(L + 1) + body + b'\0', 'trailing-inside'); add(b'\x30' + der_len(L + 2) + body + b'\x02\x00', 'trailing-inside-int')
     for _ in range(60 * n): add(rng.bytes(rng.randint(0, 80)), 'random')
